@@ -38,7 +38,7 @@ func exec(op string, args []string) []string {
 }
 
 func gen(rng *rand.Rand, tier core.Tier, emit core.Emit) {
-	n := 200
+	n := 600
 	if tier == core.Thorough {
 		n = 6000
 	}
